@@ -93,7 +93,7 @@ inline std::string mutate_file(vf::Chooser& c, const std::string& valid, unsigne
     for (unsigned e = 0; e < nedits; e++) {
       std::vector<Node*> all, ints, strs, conts;
       collect(root, all, ints, strs, conts);
-      uint64_t kind = c.range(0, 13);
+      uint64_t kind = c.range(0, 14);
       switch (kind) {
         case 0: {  // declared length / count of a string or container
           std::vector<Node*> cand = strs; cand.insert(cand.end(), conts.begin(), conts.end());
@@ -213,6 +213,24 @@ inline std::string mutate_file(vf::Chooser& c, const std::string& valid, unsigne
           Node* n = conts[c.range(0, conts.size() - 1)];
           Override& o = ov[n]; o.has_count = true; o.count = c.pick<uint64_t>({0xFFFFFFFFull, 0x100000000ull, 0x7FFFFFFFFFFFFFFFull, 0xFFFFFFFFFFFFFFFFull, 0x10000000ull});
           st.kinds["huge_declared_count"]++;
+          break;
+        }
+        case 13: {  // two cooperating lies: a huge max-block-items in every parameter set AND a huge declared item count of an item array
+          bool done = false;
+          uint64_t big = c.pick<uint64_t>({0x100000000ull, 0xFFFFFFFFFFFFFFFFull, 0x7FFFFFFFFFFFFFFFull, 0x1000000ull});
+          if (root.kids.size() == 3) {
+            Node& pre = root.kids[1];
+            for (size_t i = 0; i + 1 < pre.kids.size(); i += 2) if (pre.kids[i].is_uint() && pre.kids[i].arg == 3)
+              for (auto& bp : pre.kids[i + 1].kids) for (size_t j = 0; j + 1 < bp.kids.size(); j += 2) if (bp.kids[j].is_uint() && bp.kids[j].arg == 0)
+                for (size_t k = 0; k + 1 < bp.kids[j + 1].kids.size(); k += 2) if (bp.kids[j + 1].kids[k].is_uint() && bp.kids[j + 1].kids[k].arg == 1) bp.kids[j + 1].kids[k + 1] = cref::mk_uint(big);
+            ov.clear();
+            for (auto& blk : root.kids[2].kids) for (size_t i = 0; i + 1 < blk.kids.size(); i += 2)
+              if (blk.kids[i].is_uint() && (blk.kids[i].arg == 3 || blk.kids[i].arg == 5 || blk.kids[i].arg == 4) && blk.kids[i + 1].major == cref::ARR && c.coin()) {
+                Override& o = ov[&blk.kids[i + 1]]; o.has_count = true; o.count = c.pick<uint64_t>({0x100000000ull, 0xFFFFFFFFull, 0x7FFFFFFFFFFFFFFFull, 0x4000000ull});
+                done = true;
+              }
+          }
+          if (done) st.kinds["huge_count_with_huge_max_block_items"]++;
           break;
         }
         default: st.kinds["none"]++; break;
